@@ -75,7 +75,7 @@ _c19_cost = {0: (9000, 16), 1: (9000, 15), 2: (8000, 14), 3: (8000, 13), 4: (600
              8: (4500, 9), 9: (3600, 9), 10: (3000, 8), 11: (2400, 8), 12: (1800, 7), 13: (1500, 6), 14: (1200, 5), 15: (900, 4)}
 for q in range(16):
     tmo, mem = _c19_cost[q]
-    tier = "quick" if q in (13, 14, 15) else "thorough"
+    tier = "quick" if q in (14, 15) else "thorough"
     add("C19", H("index", "c19_sse2_q%d" % q, tier, ["C19.A1", "C19.A2", "C19.A3", "C19.A4"],
                  "page:[u64;64], key:u64, offset in group:0..4, bits:u8 in 16..=40; start positions %d..%d" % (4 * q, 4 * q + 3),
                  "unwind 65; start group %d concrete" % q, tmo, mem, unwind=65, stubs=PSRLQ))
@@ -158,7 +158,7 @@ prop("C12",
      outside="msync/fsync semantics, which pages reach the disk (kernel), TableFile::grow's flush of the old mapping (mmap FFI), sync_wal=false configurations, "
              "thread interleavings between the commit, flush and cleanup workers",
      assumptions=["File::{sync_data, sync_all, set_len, seek} replaced by event-recording models that may fail nondeterministically"])
-FEV = ["stub: File::{sync_data, sync_all, set_len}, <File as Seek>::seek -> event-recording, nondeterministically failing models",
+FEV = ["stub: File::{sync_data, sync_all, set_len}, <File as Seek>::seek -> event-recording, nondeterministically failing models", "stub: File::try_clone -> another handle on the same file (dup is FFI)",
        "stub: <OwnedFd as Drop>::drop -> no-op (harness fds are fabricated, never opened)"]
 add("C12", H("log", "c12_o1_flush_one_syncs_before_handover", "quick", ["C12.O1"], "sync flag, size, threshold, sync failure", "one call", 600, 4, unwind=6, stubs=ENV + FEV, replay="solver-trace-only"))
 add("C12", H("log", "c12_o2_read_next_only_from_read_queue", "thorough", ["C12.O2"], "12 log bytes, queue shape, validate flag", "one call; the real 8 KiB BufReader", 2400, 12, unwind=50, stubs=ENV + FEV + FILEREAD, replay="solver-trace-only"))
@@ -236,7 +236,7 @@ prop("C10",
      assumptions=[])
 _c10_pairs = [(0, 0), (1, 0), (1, 1), (8, 1), (9, 1), (10, 1), (16, 2), (17, 2), (18, 2), (5, 0), (25, 3), (24, 3), (26, 3), (33, 4), (40, 4), (40, 5), (40, 0), (3, 255), (40, 255), (40, 128)]
 for l, c in _c10_pairs:
-    add("C10", H("column", "c10_n1_unpack_l%d_c%d" % (l, c), "quick" if (l, c) in ((1, 1), (9, 1), (17, 2), (3, 255), (26, 3)) else "thorough", ["C10.N1"],
+    add("C10", H("column", "c10_n1_unpack_l%d_c%d" % (l, c), "quick" if (l, c) in ((9, 1), (17, 2), (3, 255), (26, 3)) else "thorough", ["C10.N1"],
                  "node bytes [u8;40]; length %d, trailing count byte %d" % (l, c), "unwind 42", 1500, 10, unwind=42, stubs=FMT_STUB))
 
 # ======================================================================================== C08 (mapsub build)
@@ -293,15 +293,15 @@ prop("C04",
      outside="iter_inner's merge of overlay and tree cursors, re-seek on record change, multi-level change/rebalance/remove_last, depth uniformity of a whole tree, iteration under concurrent commits",
      assumptions=["node pre-states are sorted and packed (a prefix of Some separators)"])
 add("C04", H("btree::node", "c04_b1_position", "quick", ["C04.B1"], "n in 0..=8, keys, probe key (1-2 bytes)", "unwind 12", 1500, 8, unwind=12))
-for fn, tier in (("c04_b2_shift_from_leaf_n7", "quick"), ("c04_b2_shift_from_inner_n7_right", "quick"), ("c04_b2_shift_from_inner_n7_left", "thorough"), ("c04_b2_shift_from_inner_n4_left", "thorough"),
-                 ("c04_b2_remove_from_leaf_n8", "quick"), ("c04_b2_remove_from_inner_n8_right", "thorough"), ("c04_b2_remove_from_inner_n8_left", "quick"), ("c04_b2_remove_from_inner_n5_left", "thorough"),
-                 ("c04_b2_split_leaf", "quick"), ("c04_b2_split_inner", "thorough")):
+for fn, tier in (("c04_b2_shift_from_leaf_n7", "quick"), ("c04_b2_shift_from_inner_n7_right", "thorough"), ("c04_b2_shift_from_inner_n7_left", "thorough"), ("c04_b2_shift_from_inner_n4_left", "thorough"),
+                 ("c04_b2_remove_from_leaf_n8", "thorough"), ("c04_b2_remove_from_inner_n8_right", "thorough"), ("c04_b2_remove_from_inner_n8_left", "quick"), ("c04_b2_remove_from_inner_n5_left", "thorough"),
+                 ("c04_b2_split_leaf", "thorough"), ("c04_b2_split_inner", "thorough")):
     add("C04", H("btree::node", fn, tier, ["C04.B2"], "keys, position", "unwind 12", 1500, 8, unwind=12))
 add("C04", H("btree::node", "c04_twin_must_fail", "quick", [], "keys", "must-fail twin", 600, 4, twin=True, unwind=12))
 for l, tier in ((0, "thorough"), (1, "quick"), (254, "quick"), (255, "quick"), (256, "thorough")):
     add("C04", H("btree", "c04_b3_separator_codec_%d" % l, tier, ["C04.B3"], "key bytes, value address, child address", "key length %d; unwind 280" % l, 1500, 8, unwind=280, stubs=FMT_STUB))
 add("C04", H("btree", "c04_b3_decode_arbitrary_bytes", "quick", ["C04.B3"], "entry bytes [u8;24], length 0..=24", "unwind 26", 1500, 8, unwind=26, stubs=FMT_STUB))
-for fn, tier in (("c04_b3_node_from_encoded_n0", "thorough"), ("c04_b3_node_from_encoded_n1_inner", "quick"), ("c04_b3_node_from_encoded_n2_leaf", "quick"),
+for fn, tier in (("c04_b3_node_from_encoded_n0", "thorough"), ("c04_b3_node_from_encoded_n1_inner", "quick"), ("c04_b3_node_from_encoded_n2_leaf", "thorough"),
                  ("c04_b3_node_from_encoded_n3_inner", "thorough"), ("c04_b3_node_from_encoded_n8_inner", "thorough"), ("c04_b3_node_from_encoded_n8_leaf", "thorough")):
     add("C04", H("btree", fn, tier, ["C04.B3"], "one-byte keys, addresses, children of a node of concrete size", "unwind 12", 2400, 10, unwind=12, stubs=FMT_STUB))
 # c04_b4_overlay_cursor_n* (CommitOverlay::{btree_next, btree_prev} over std's BTreeMap, harness/db.rs) are NOT registered:
@@ -518,6 +518,20 @@ PROPS["C04"]["outside"] = "the overlay cursor's BTreeMap range queries (std BTre
 # ---- C01 also runs the reindex hand-over harnesses (a key must stay readable while its index entry is being migrated)
 for fn, tier in (("c09_r_drop_index_restarts_progress", "quick"), ("c09_r_reindex_batch_last_two_pages", "quick")):
     add("C01", H("column", fn, tier, ["C09.R"], "see C09", "see C09", 600, 4, unwind=66 if "batch" in fn else 12, stubs=ENV + ENTC, replay="solver-trace-only"))
+
+# ---- C14.T1c: claim_entries (node slots claimed at commit time)
+for fn, tier in (("c14_t1c_claim_from_list_2_take_1", "quick"), ("c14_t1c_claim_from_list_2_take_3", "quick"), ("c14_t1c_claim_from_list_1_take_1", "thorough"), ("c14_t1c_claim_from_empty_take_2", "thorough")):
+    for pid in ("C14", "C10"):
+        add(pid, H("table", fn, tier if pid == "C14" else ("quick" if "take_3" in fn else "thorough"), ["C14.T1c"], "fill mark 1..=6, free stack entries (distinct, below the fill mark); stack length and number of claimed slots as named",
+                   "in-memory free stack of <= 2 entries, <= 3 slots claimed; unwind 8", 600, 3, unwind=8, stubs=ENV, replay="playback-native-env"))
+PROPS["C14"]["functions"] += ["ValueTable::claim_entries (free stack, head, fill mark, dirty header)"]
+
+# ---- C12.F: the real TableFile::flush
+add("C12", H("file", "c12_f1_table_flush_syncs_whole_map", "quick", ["C12.F"], "map length 1..=64, capacity counter:u64, file present or not, msync failure",
+             "one TableFile::flush call; memmap2::MmapMut::{flush, flush_async, flush_range, flush_async_range} replaced by recorders; unwind 4", 600, 3, unwind=4,
+             stubs=LOCK_STUBS + ["stub: memmap2::MmapMut::{flush, flush_async, flush_range, flush_async_range} -> record (synchronous?, offset, length), fail nondeterministically (msync is FFI)",
+                                 "model: MmapMut fabricated over a 64-byte static buffer ({ptr, len} layout asserted through len())"], replay="solver-trace-only"))
+PROPS["C12"]["functions"] += ["TableFile::flush (one synchronous msync over the whole mapping; failure reported)"]
 
 # ---- memory classes from measurement: the registered class is an upper bound chosen before the harness was ever run; where a
 # run on the unchanged tree recorded the peak resident memory of the whole process group (lib/measured_rss_mb.json, refreshed
